@@ -292,6 +292,101 @@ def r4_refused_patch_not_dropped(ctx):
         r.anchor_missing("locals of type CheckedPatch")
 
 
+KIND_ORDER = ["identity", "account", "device", "files", "folder"]
+
+
+def r6_canonical_log_order(ctx):
+    """Every function that walks the five log kinds does so in the order
+    identity, account, device, files, folders (account events need the identity
+    folder's keys; folders need the account log's folder set)."""
+    ws = ctx.ws
+    r = ctx.rule("C04-R6", "all code that handles the five log kinds does so in the canonical order identity → account → device → files → folders",
+                 floor=4, kind="K5 sibling agreement (call order)")
+    prefixes = ("merge_", "force_merge_", "auto_merge_", "compare_")
+    n = 0
+    for f in ws.fns.values():
+        if f.crate in idioms.TEST_CRATES:
+            continue
+        for b in f.bodies:
+            live = cfg.live_blocks(b)
+            for pre in prefixes:
+                sites = {}
+                for i, t in idioms.real_calls(b, live):
+                    nm = cname(t)
+                    if nm.startswith(pre) and nm[len(pre):] in KIND_ORDER and pre + nm[len(pre):] == nm:
+                        sites.setdefault(nm[len(pre):], []).append(i)
+                if len(sites) < 3:
+                    continue
+                n += 1
+                kinds = [k for k in KIND_ORDER if k in sites]
+                bad = None
+                for a, c in zip(kinds, kinds[1:]):
+                    # a later kind must never be followed by an earlier one
+                    for cb in sites[c]:
+                        after = cfg.reach_after(b, cb)
+                        if any(ab in after for ab in sites[a]) and not any(cb2 in cfg.reach_after(b, ab) for ab in sites[a] for cb2 in sites[c] if cb2 == cb and False):
+                            # allow loops: if a also reaches c it is a loop, only flag when c is NOT after a
+                            if not any(cb in cfg.reach_after(b, ab) for ab in sites[a]):
+                                bad = (a, c, cb)
+                k = "%s|%s*" % (b.root, pre)
+                if bad:
+                    r.violation(k, cfg.loc(b, bad[2]), "`%s%s` runs before `%s%s` here, unlike every sibling (identity → account → device → files → folders): later kinds depend on the earlier logs being merged" % (pre, bad[1], pre, bad[0]), work=len(live))
+                else:
+                    r.ok(k, cfg.loc(b), "%s{%s} in canonical order" % (pre, ",".join(kinds)), work=len(live))
+    if n < 4:
+        r.anchor_missing("functions that walk the log kinds (found %d)" % n)
+
+
+def r2b_field_to_field(ctx):
+    """Struct-to-struct projections over the five log kinds read each field
+    from the same-named field."""
+    ws = ctx.ws
+    r = ctx.rule("C04-R2b", "per-log records are built field by field from the same-named field of their source",
+                 floor=1, kind="K5 sibling agreement (field mapping)")
+    kinds = {"identity", "account", "device", "files", "folders"}
+    n = 0
+    for f in ws.fns.values():
+        if f.crate in idioms.TEST_CRATES or not f.crate.startswith("sos_"):
+            continue
+        if f.meta.get("exp"):
+            continue
+        sa = f.meta.get("self_adt")
+        if not sa or sa not in ws.adts or ws.adts[sa]["kind"] != "Struct":
+            continue
+        sfields = {x["name"] for x in ws.adts[sa]["variants"][0]["fields"]}
+        if len(sfields & kinds) < 4:
+            continue
+        fg = None
+        for b in f.bodies:
+            for j in sorted(cfg.live_blocks(b)):
+                for st in b.blocks[j]["s"]:
+                    if st.get("k") != "agg" or st.get("ak") != "adt":
+                        continue
+                    flds = st.get("fields") or []
+                    if len(set(flds) & kinds) < 4 or st["adt"] == sa and False:
+                        continue
+                    fg = fg or FlowGraph(ws, f)
+                    n += 1
+                    for fname, op in zip(flds, st["ops"]):
+                        if fname not in kinds or fname not in sfields:
+                            continue
+                        sl = fg.back_from_operand(b, op)
+                        got = set()
+                        for (bb, p) in sl.reads:
+                            for nm in cfg.place_fields(p):
+                                if nm in kinds:
+                                    got.add(nm)
+                        k = "%s|%s.%s" % (f.root, st["adt"].rsplit("::", 1)[-1], fname)
+                        if not got or fname in got and len(got) == 1:
+                            r.ok(k, cfg.loc(b, j), "`%s` built from self.%s" % (fname, fname) if got else "`%s` not built from a per-log field" % fname, work=len(sl.nodes) + 1)
+                        elif fname in got:
+                            r.ok(k, cfg.loc(b, j), "`%s` built from %s" % (fname, sorted(got)), work=len(sl.nodes) + 1)
+                        else:
+                            r.violation(k, cfg.loc(b, j), "field `%s` of %s is computed from self.%s: the %s log is judged by another log's state" % (fname, st["adt"].rsplit("::", 1)[-1], sorted(got), fname), work=len(sl.nodes) + 1)
+    if n < 1:
+        r.anchor_missing("per-log struct projections (e.g. SyncCompare::maybe_conflict)")
+
+
 def r5_hard_conflict(ctx):
     ws = ctx.ws
     r = ctx.rule("C04-R5", "each hard-conflict handler fetches the full remote log and force-merges the same log kind",
@@ -323,6 +418,8 @@ def run(ctx):
     ctx.trust("rustc MIR construction", "type strings printed by rustc identify CheckedPatch-typed locals")
     r1_log_kind_consistency(ctx)
     r2_diff_siblings(ctx)
+    r2b_field_to_field(ctx)
     r3_one_status(ctx)
     r4_refused_patch_not_dropped(ctx)
     r5_hard_conflict(ctx)
+    r6_canonical_log_order(ctx)
